@@ -141,7 +141,7 @@ Section EX.
   Proof.
     revert j. induction l as [|y l IH]; intros j H; [destruct j; discriminate|].
     destruct j as [|j]; cbn [nth_error] in H; [injection H as <-; reflexivity|].
-    cbn [firstn]. rewrite (IH j H). reflexivity.
+    change (firstn (S (S j)) (y :: l)) with (y :: firstn (S j) l). rewrite (IH j H). reflexivity.
   Qed.
 
   Lemma kids_upto_S t j n : nth_error t j = Some n -> kids_upto t (S j) = kids_upto t j ++ kids n.
@@ -151,7 +151,7 @@ Section EX.
   Qed.
 
   Lemma kids_range t j : children_before t -> (j <= length t)%nat ->
-    Forall (fun c => 1 <= c /\ c <= N.of_nat j) (kids_upto t j).
+    Forall (fun c => 1 <= c /\ c + 1 <= N.of_nat j) (kids_upto t j).
   Proof.
     intros CB. induction j as [|j IH]; intro Hj; [constructor|].
     destruct (nth_error t j) as [n|] eqn:E; [|apply nth_error_None in E; lia].
@@ -185,11 +185,10 @@ Section EX.
     ser_node compress limit t st (N.of_nat j + 1) n = Ok st' -> EI t j st -> EI t (S j) st'.
   Proof.
     intros CB Hn H (Lr & l & E & OK & HS).
-    assert (Hj : (S j <= length t)%nat) by (apply Nat.lt_le_incl, le_n_S; apply Nat.lt_succ_r; apply Nat.lt_succ_r;
-                                             apply Nat.lt_le_incl; apply Nat.lt_succ_r; apply le_n_S; apply nth_error_Some; congruence).
+    assert (Hj : (S j <= length t)%nat) by (assert (j < length t)%nat by (apply nth_error_Some; congruence); lia).
     assert (KR : Forall (fun c => 1 <= c /\ c <= nlen (s_refs st)) (kids_upto t (S j))).
     { eapply Forall_impl; [|apply (kids_range t (S j) CB Hj)]. intros c [A B]. split; [exact A|].
-      rewrite (kids_upto_S _ _ _ Hn) in *. unfold nlen. rewrite Lr. lia. }
+      unfold nlen. rewrite Lr. lia. }
     unfold ser_node in H.
     destruct (negb (N.land (fn_mode n) c_S_IFMT =? payload_fmt (fn_payload n))); [discriminate|].
     assert (G : exists w' kind, (match fn_payload n with
